@@ -1041,6 +1041,12 @@ def last_block_header_child(ast: AST) -> AST | None:
                        ExceptHandler, match_case):  # Try, TryStar open blocks but don't have children
         return None
 
+    if ast_cls is ClassDef and (bases := ast.bases) and (keywords := ast.keywords):  # a starred base can follow keywords
+        base = bases[-1]
+        keyword = keywords[-1]
+
+        return base if (base.lineno, base.col_offset) > (keyword.lineno, keyword.col_offset) else keyword
+
     for field in reversed(AST_FIELDS[ast_cls]):
         if field in ('body', 'orelse', 'finalbody', 'handlers', 'cases') or not (child := getattr(ast, field, None)):
             continue
